@@ -160,6 +160,9 @@ func runReplayTest(root string, rf *replayFile) {
 	ctx, cancel := context.WithTimeout(context.Background(), 180*time.Second)
 	defer cancel()
 	args := []string{"test", "-overlay", ovFile, "-vet=off", "-count=1", "-timeout", "60s", "-run", "^TestVFReplay$"}
+	if strings.Contains(rf.TestSource, "//vf:hooks") {
+		args = append(args, "-tags=verif") // the driver forces a schedule through the verif-tagged yield points
+	}
 	if strings.Contains(rf.TestSource, "//vf:race") {
 		args = append(args, "-race")
 	}
